@@ -17,6 +17,14 @@ def orderValid (o : Order) : Bool :=
     && decide (o.assetsDenom ≠ o.priceDenom) && (!o.isAsk || decide (o.fees.length ≤ 1))
     && decide ((o.fees.map (·.1)).Nodup)
 
+def NonnegFees (c : Coins) : Prop := ∀ x ∈ c, 0 ≤ x.2
+
+/-- the part of `orderValid` the theorems need: positive assets and price, non-negative fees -/
+structure OrderPos (o : Order) : Prop where
+  assets : 0 < o.assets
+  price : 0 < o.price
+  fees : NonnegFees o.fees
+
 /-- The domain the property quantifies over: stored (valid) orders with distinct ids. -/
 def inDomain (asks bids : List Order) : Bool :=
   (asks ++ bids).all orderValid && decide (((asks ++ bids).map (·.id)).Nodup)
